@@ -103,6 +103,7 @@ def build():
     u.raw("}\n}\n")
     u.real_item(GEN, r"struct InsertReferencesResult\b", lambda t: common.wrap(common.pub_fields(common.strip_doc(t))), "R7")
     u.include("spec/ids.rs")
+    u.include("spec/report.rs")
     u.include("spec/tree.rs")
     u.raw(u_context.DEFAULTS_SPEC)
     u_context.serde_axioms(u)
